@@ -51,6 +51,8 @@ def check(run):
     R.rule('C04.rsvgate', 'CompressedFrame parsing has one writer, reachable only under the permessage-deflate '
                           'token test', 4)
     R.rule('C04.disc', 'Disconnected events in the failure handlers are graceful=False', 3)
+    from .common import event_fields as _event_fields
+    _event_fields(R, 'C04.disc', ['ProtocolError', 'Disconnected'])      # critical / graceful as constructed
     R.rule('C04.masked', 'the stream\'s parser class rejects any frame with the mask bit before delegating', 3)
     R.rule('C04.utf8', 'invalid UTF-8 fails at the violating frame: the streaming validator is the RFC 3629 automaton, sees '
                        'every text byte once and keeps its state across frames and reads', 10)
